@@ -1,4 +1,5 @@
 import LyModel.Ctx.LemmasFinal
+import LyModel.Ctx.LemmasUsable
 import LyModel.Ctx.Examples
 /-!
 # C09 — a failed schema operation leaves the context as it was
@@ -139,6 +140,41 @@ theorem failed_op_restores_partial (s : Ctx) (op : Op) (e : Nat) (s' : Ctx) (hq 
         rw [← this]; exact hk
       exact revert_cores hq.noCreating hq.noImplementing hq.lrefs hk'
 
+private theorem untouched_init {s : Ctx} (hq : Quiescent s) :
+    Untouched (s.mods.map fun m => (m.key, m.compiled)) [] s := by
+  refine ⟨?_, hq.noImplementing, hq.keys⟩
+  have : (List.filter (fun _ : Mod => true) s.mods) = s.mods := List.filter_eq_self.mpr (fun _ _ => rfl)
+  simp only [hq.noCreating, List.contains_nil, Bool.not_false, this]
+
+/-- **`data_stays_usable`, the part that holds.**  A `lys_parse` that fails in ANY stage of `lys_parse_in` — syntax,
+    namespace clash, unresolved import or include (at any depth of the import chain), name collisions, if-features of
+    features, identity bases — leaves every module with exactly the compiled nodes it had: data trees created before the
+    call stay usable.  (From the implement stage on this is false, see `data_stays_usable_fails`.) -/
+theorem data_stays_usable_partial (s : Ctx) (src : ModSrc) (feats : FeatArg) (e : Nat) (s1 : Ctx) (hq : Quiescent s)
+    (hparse : parseIn (parseFuel s) src none s = (.error e, s1)) :
+    (run s (.parse src feats)).2.mods.map (fun m => (m.key, m.compiled)) = s.mods.map (fun m => (m.key, m.compiled)) := by
+  have h1 := (presU_parse (parseFuel s)).1 src none s (untouched_init hq)
+  rw [hparse] at h1
+  have hf : forward (.parse src feats) s = (.error e, s1) := by
+    simp only [forward, bind_run, getS_run, hparse]
+  have hr : run s (.parse src feats) = (.error e, erase (revert s1)) := by
+    simp only [run, hf]
+  rw [hr]
+  exact untouched_revert h1
+
+/-- the same for `ly_ctx_load_module` failing inside `lys_parse_load` -/
+theorem data_stays_usable_partial_load (s : Ctx) (name : Bytes) (rev : Option Bytes) (feats : FeatArg) (e : Nat) (s1 : Ctx)
+    (hq : Quiescent s) (hparse : parseLoad (parseFuel s) name rev s = (.error e, s1)) :
+    (run s (.load name rev feats)).2.mods.map (fun m => (m.key, m.compiled)) = s.mods.map (fun m => (m.key, m.compiled)) := by
+  have h1 := (presU_parse (parseFuel s)).2 name rev s (untouched_init hq)
+  rw [hparse] at h1
+  have hf : forward (.load name rev feats) s = (.error e, s1) := by
+    simp only [forward, bind_run, getS_run, hparse]
+  have hr : run s (.load name rev feats) = (.error e, erase (revert s1)) := by
+    simp only [run, hf]
+  rw [hr]
+  exact untouched_revert h1
+
 /-! ### non-vacuity, and where the full statement fails -/
 
 open LyModel.Ctx.Ex
@@ -197,6 +233,22 @@ theorem failed_implement_keeps_features :
   ⟨s, op, 8, (run s op).2, Quiescent.ofB (by decide +kernel), run_eq_error (e := 7) (by decide +kernel),
     by decide +kernel, by decide +kernel⟩
 
+/-- non-vacuity of `data_stays_usable_partial`: `aaa@2020-01-01` with an identity whose base does not resolve fails in
+    `lys_parse_in` after the module and nothing else was added to a context holding the compiled `aaa@2019-01-01` -/
+example : ∃ e s1, Quiescent (run (ctx0 [A19]) (.parse A19 none)).2 ∧
+    parseIn (parseFuel (run (ctx0 [A19]) (.parse A19 none)).2) A20late none (run (ctx0 [A19]) (.parse A19 none)).2 = (.error e, s1) ∧
+    s1.mods.length = 2 := by
+  refine ⟨7, (parseIn (parseFuel (run (ctx0 [A19]) (.parse A19 none)).2) A20late none (run (ctx0 [A19]) (.parse A19 none)).2).2,
+    Quiescent.ofB (by decide +kernel), ?_, by decide +kernel⟩
+  have h : rc ((parseIn (parseFuel (run (ctx0 [A19]) (.parse A19 none)).2) A20late none (run (ctx0 [A19]) (.parse A19 none)).2).1.map fun _ => ()) = 7 := by
+    decide +kernel
+  cases hp : parseIn (parseFuel (run (ctx0 [A19]) (.parse A19 none)).2) A20late none (run (ctx0 [A19]) (.parse A19 none)).2 with
+  | mk r t =>
+    rw [hp] at h
+    cases r with
+    | ok k => simp [rc, Except.map] at h
+    | error e' => simp only [rc, Except.map] at h; rw [h]
+
 /-- **F51.**  Without `Quiescent`: in an explicit-compile context a failed `lys_parse` also removes the modules that
     earlier, successful calls added since the last `ly_ctx_compile` (they are all in `unres.creating`). -/
 theorem pending_batch_dropped :
@@ -228,6 +280,26 @@ theorem data_stays_usable_fails :
   have := h _ _ _ _ hq hr
   revert this
   decide +kernel
+
+/-- **F57.**  "Same compiled schema for every module" is false even between two calls of a context without explicit
+    compilation: the successful `lys_parse(mdd)` implements `maa` (augment target of `mbb`, which is implemented for a leafref
+    of `mcc`, which is implemented for a leafref of `mdd`) without ever compiling it; the failed `lys_parse(mzz)` — a module
+    that does not compile — gives `maa` its compiled module through the recompilation in `lys_unres_glob_revert`. -/
+theorem compiled_schema_not_restored :
+    ∃ (s : Ctx) (op : Op) (e : Nat) (s' : Ctx), Quiescent s ∧ s.explicit = false ∧ run s op = (.error e, s') ∧ ObsCore s' = ObsCore s ∧
+      s.mods.map (fun m => (m.key, m.implemented, m.compiled.isSome)) ≠ s'.mods.map (fun m => (m.key, m.implemented, m.compiled.isSome)) :=
+  let s := (run (ctx0 [Ma, Mb, Mc, Md, Mz]) (.parse Md none)).2
+  let op : Op := .parse Mz none
+  ⟨s, op, 7, (run s op).2, Quiescent.ofB (by decide +kernel), by decide +kernel, run_eq_error (e := 6) (by decide +kernel),
+    by decide +kernel, by decide +kernel⟩
+
+-- OPEN: compiled_schema_restored_partial —
+--   ∀ s op e s', Quiescent s → (every implemented module of s is compiled and its compiled content is up to date:
+--     m.compiled = some (i, s.descOf m)) → run s op = (.error e, s') → featArg op = none →
+--     s'.mods.map (fun m => m.compiled.map (·.2)) = s.mods.map (fun m => m.compiled.map (·.2))
+--   (needs: augmented_by / deviated_by restored — `eraseOne` against `addRef` — and "every module whose compiled module was
+--   freed is flagged and in a dependency set when revert recompiles"; the correspondence compares the class of the compiled
+--   print of every implemented module after every call instead.)
 
 /-- what a caller does later: `aaa@2020-01-01` appears in the repository and is loaded, then the correct module `ccc`
     (dateless import + augment of `aaa`) is parsed -/
